@@ -652,7 +652,8 @@ pub fn gen_case(r: &mut Rng, p: &Profile) -> Case {
                     let garbage = match r.below(5) {
                         0 => vec![0x00, 0x00],
                         1 => vec![0x10, 0x00],
-                        2 => packet(0xE0, &[]),
+                        // a broker DISCONNECT: without a reason, normal, or with the failure codes brokers really send
+                        2 => packet(0xE0, *r.pick(&[&[][..], &[0x00], &[0x8E], &[0x98, 0x00], &[0x8B], &[0x81, 0x00]])),
                         3 => vec![0x30, 0xFF, 0xFF, 0xFF, 0x7F],
                         _ => {
                             let n = r.range(1, 6) as usize;
